@@ -75,3 +75,10 @@ package engine
 //@ rule[C16] callers (*EngineFacade).DeleteInternal : pkg/replication
 //@ rule[C16] callers (*EngineFacade).ApplyBatchInternal : pkg/replication
 //@ rule[C16] callers (*EngineFacade).SetReadOnly : pkg/replication::(*Manager).setEngineReadOnly, pkg/replication::(*EngineApplier).applyInReadOnlyMode
+
+// ---- C20: load-or-create at open: defaults are written only when the manifest is missing; any other load
+// error makes opening fail before anything is created.
+//@ func NewEngineFacade
+//@   ensures[C20] err != nil ==> result0 == nil
+//@   check[C20] before call NewDefaultConfig#1: errors.Is(err, config.ErrManifestNotFound)
+//@   check[C20] before call NewManager#1: cfg != nil
